@@ -55,10 +55,11 @@ impl<'a> Evaluator<'a> {
     }
 
     /// Evaluate the given expression as a condition. The NULL literal (it has a type of its own)
-    /// is a condition that holds for no row.
+    /// is a condition that holds for no row. A row whose condition is NULL is not selected,
+    /// whatever raw value its slot holds: consumers read the raw `true_array`.
     pub fn eval_condition(&self, chunk: &DataChunk) -> Result<Arc<BoolArray>, ConvertError> {
         match self.eval(chunk)? {
-            ArrayImpl::Bool(a) => Ok(a),
+            ArrayImpl::Bool(a) => Ok(Arc::new(clear_null(Arc::unwrap_or_clone(a)))),
             ArrayImpl::Null(a) => Ok(Arc::new((0..a.len()).map(|_| None::<bool>).collect())),
             _ => panic!("a condition should return bool"),
         }
